@@ -1,4 +1,5 @@
 import numpy as np
+from scipy import sparse
 from sknetwork.path import get_distances, get_shortest_path, breadth_first_search, get_dag
 from .util import mk_matrix, csr_edges, tolist
 
@@ -56,6 +57,16 @@ def sequence(a):
             elif kind == 'dag':
                 p = get_dag(m, order=np.array(step['order'], dtype=int))
                 out.append({'ok': csr_edges(p)})
+            elif kind == 'edit':
+                # the caller changes the graph in place between two calls (an edge added or removed on the same object)
+                import warnings
+                with warnings.catch_warnings():
+                    warnings.simplefilter('ignore')
+                    i, j = step.get('add') or step.get('remove')
+                    m[i, j] = 1 if 'add' in step else 0
+                    if 'remove' in step and sparse.issparse(m):
+                        m.eliminate_zeros()
+                out.append({'ok': 'edited'})
             else:
                 out.append({'ok': tolist(breadth_first_search(m, int(step['source'])))})
         except Exception as e:  # noqa
